@@ -11,7 +11,8 @@ the real apply_simp and rendered with the real writer; the oracle demands
 * introduced declarations declare symbols not yet declared and are placed
   before their first use.
 """
-from vlib import budget, common, gen_smt, refmodel, refreader, shapes
+from vlib import budget, common, gen_smt, refmodel, refreader, shapes, \
+    workload
 
 LEVEL = 'exploration'
 
@@ -42,6 +43,14 @@ def tricky_prefix(r):
              r.choice(['"a""b"', '"a\\u{3bb}b c"', '"\\x41""q"', '"(;|)"'])]
         ])
         out.append(['assert', ['str.contains', '|s v|', '"a""b"']])
+    if r.random() < 0.3:
+        # previous bit-width reductions (what BVMergeReducedBW looks for)
+        out.append(['declare-const', '__rw', ['_', 'BitVec', '2']])
+        out.append(['define-fun', '_rw', [], ['_', 'BitVec', '5'],
+                    [['_', 'zero_extend', '3'], '__rw']])
+        out.append(['define-fun', 'rw', [], ['_', 'BitVec', '8'],
+                    [['_', 'zero_extend', '3'], '_rw']])
+        out.append(['assert', ['=', 'rw', '#x03']])
     if r.random() < 0.3:
         out.append(['declare-const', 'falsy', 'Bool'])
         out.append(['assert', ['or', 'falsy', ['not', 'falsy']]])
@@ -344,7 +353,8 @@ def shard(args):
                 'let', 'quant', 'defs', 'annot']
         g = gen_smt.Gen(r, ['core'] + r.sample(pool, r.randint(2, len(pool))),
                         quoted=r.random() < 0.3)
-        script = g.script(nasserts=r.randint(1, 3), depth=r.randint(1, 3))
+        script = g.script(nasserts=r.randint(1, 3), depth=r.randint(1, 3),
+                          logic=r.choice(workload.LOGICS))
         extra = shapes.inject_shapes(g, r, depth=1, extra=True)
         cmds = list(script.cmds)
         known = {id(c) for c in cmds}
